@@ -14,6 +14,7 @@ import (
 	"bytes"
 	"encoding/json"
 	"fmt"
+	"net/url"
 	"sort"
 	"strconv"
 	"strings"
@@ -209,6 +210,8 @@ func c20SharedProfile(x *xctx) *violation {
 // ---- scenario 2: options read while being set ----
 
 type regOp struct {
+	menu     bool   // read through the saved-configuration menu instead
+	names    string // menu entry names seen
 	write    bool
 	n        int
 	f        string
@@ -235,6 +238,23 @@ func c20Options(x *xctx) *violation {
 	for i := nw; i < nw+nr; i++ {
 		ops[i] = make([]regOp, 1+t.Choose(K, 3))
 	}
+	// Some readers go through the menu of saved configurations, which reads
+	// the settings file and fills each entry in from the current options.
+	wantNames := "Default"
+	if t.Bool(K, 50) {
+		nsaved := 1 + t.Choose(K, 3)
+		var entries []string
+		for i := 0; i < nsaved; i++ {
+			entries = append(entries, fmt.Sprintf(`{"name":"saved%d","focus":"f%d","nodecount":%d}`, i, i, 10+i))
+			wantNames += fmt.Sprintf(",saved%d", i)
+		}
+		simos.PutFile(simSettings, []byte(`{"configs":[`+strings.Join(entries, ",")+`]}`))
+		for i := nw; i < nw+nr; i++ {
+			for j := range ops[i] {
+				ops[i][j].menu = t.Bool(K, 50)
+			}
+		}
+	}
 	useConfigure := t.Bool(K, 40)
 	cfg := c20Sched(t, 200)
 	cfg.Tape = t
@@ -256,6 +276,12 @@ func c20Options(x *xctx) *violation {
 							c.NodeCount, c.Focus = o.n, o.f
 							setCurrentConfig(c)
 						}
+					} else if o.menu {
+						var names []string
+						for _, e := range configMenu(simSettings, url.URL{Path: "/top"}) {
+							names = append(names, e.Name)
+						}
+						o.names = strings.Join(names, ",")
 					} else {
 						c := currentConfig()
 						o.n, o.f = c.NodeCount, c.Focus
@@ -275,7 +301,16 @@ func c20Options(x *xctx) *violation {
 	}
 	var flat []regOp
 	for i := range ops {
-		flat = append(flat, ops[i]...)
+		for _, o := range ops[i] {
+			if o.menu {
+				if o.names != wantNames {
+					return violf("menu-differs-under-concurrency", "configuration menu read while options were being set lists %q, want %q", o.names, wantNames)
+				}
+				x.probe("menu_read_while_options_set")
+				continue
+			}
+			flat = append(flat, o)
+		}
 	}
 	for _, o := range flat {
 		if !o.write && !useConfigure && o.n != init.NodeCount && o.f != fmt.Sprintf("f%d", o.n) {
